@@ -14,7 +14,7 @@
 (*   SingleByteDecoder::decode_to_utf8_raw / _utf16_raw                    *)
 (*   UserDefinedDecoder, ReplacementDecoder, Iso2022JpDecoder, Utf8Decoder *)
 (*   Handles: check_space_bmp/astral, copy_ascii_from_check_space_*        *)
-(* Variants not yet transcribed (gb18030, EUC-JP) use the                  *)
+(* The one variant not yet transcribed (EUC-JP) uses the                   *)
 (* generic decoder_function! shape driven by Layer S ("abstract variant"): *)
 (* contract-conformant, but not expected to predict the real code's exact  *)
 (* stopping points.                                                        *)
@@ -385,9 +385,103 @@ Utf16Raw(be, v, c) ==
   ELSE Utf16Loop(be, v, c)
 
 (***************************************************************************)
+(* gb18030_decoder_function! (gb18030 and GBK decoders).                   *)
+(* v.st.a / b / c = the bytes of Gb18030Pending::One / Two / Three (0 =     *)
+(* none), v.lead = pending_ascii (the digit to be output first, 0 = none). *)
+(* The second / third / fourth bodies take their verdict from Layer S:     *)
+(*   second not a digit: bad trail -> Malformed(1,0) un-read if ASCII,     *)
+(*     else Malformed(2,0); otherwise a character;                         *)
+(*   third invalid: pending_ascii = second, Malformed(1,1), third un-read; *)
+(*   fourth not a digit: pending_ascii = second, pending = One(third),     *)
+(*     Malformed(1,2), fourth un-read; digit: character or Malformed(4,0). *)
+(***************************************************************************)
+GbSt(a, b, c) == [Blank EXCEPT !.a = a, !.b = b, !.c = c]
+GbV(a, b, c, pa) == [V0 EXCEPT !.st = GbSt(a, b, c), !.lead = pa]
+IsDigitByte(x) == x >= 48 /\ x <= 57
+
+\* outcome of the byte after `first` (not a digit): [done, ret, c]
+GbSecond(first, c) ==
+  LET second == Peek(c)
+      c1 == Adv(c, 1)
+      r == GbH(GbSt(first, 0, 0), second)
+  IN  IF r.err THEN
+        (IF r.restore # <<>> THEN [done |-> TRUE, ret |-> Ret(V0, "M", 1, 0, c), c |-> c]
+         ELSE [done |-> TRUE, ret |-> Ret(V0, "M", 2, 0, c1), c |-> c1])
+      ELSE [done |-> FALSE, ret |-> Ret(V0, "I", 0, 0, c1), c |-> Wr(c1, r.emit)]
+
+\* fourth byte: c.pos at the fourth byte
+GbFourth(first, second, third, c) ==
+  LET fourth == Peek(c)
+      c1 == Adv(c, 1)
+      r == GbH(GbSt(first, second, third), fourth)
+  IN  IF ~IsDigitByte(fourth) THEN [done |-> TRUE, ret |-> Ret(GbV(third, 0, 0, second), "M", 1, 2, c), c |-> c]
+      ELSE IF r.err THEN [done |-> TRUE, ret |-> Ret(V0, "M", 4, 0, c1), c |-> c1]
+      ELSE [done |-> FALSE, ret |-> Ret(V0, "I", 0, 0, c1), c |-> Wr(c1, r.emit)]
+
+ThirdOK(third) == third >= 129 /\ third <= 254
+
+RECURSIVE GbOuter(_), GbMiddle(_, _), GbAfter(_)
+GbOuter(c) ==
+  LET srcRem == Len(c.src) - c.pos
+      dstRem == c.cap - c.w
+      length == IF dstRem < srcRem THEN dstRem ELSE srcRem
+      pending == IF dstRem < srcRem THEN "O" ELSE "I"
+      n == AsciiCount(c.src, c.pos, length)
+      c1 == CopyAscii(c, n)
+  IN  IF n = length THEN Ret(V0, pending, 0, 0, c1)
+      ELSE IF ~SpaceAstral(c1) THEN Ret(V0, "O", 0, 0, c1)
+      ELSE GbMiddle(Adv(c1, 1), Peek(c1))
+
+GbMiddle(c, na) ==
+  IF na = 255 THEN Ret(V0, "M", 1, 0, c)
+  ELSE IF na = 128 THEN GbOuter(Wr(c, <<8364>>))
+  ELSE IF SrcEmpty(c) THEN (IF c.last THEN Ret(V0, "M", 1, 0, c) ELSE Ret(GbV(na, 0, 0, 0), "I", 0, 0, c))
+  ELSE LET second == Peek(c) IN
+    IF ~IsDigitByte(second) THEN (LET t == GbSecond(na, c) IN IF t.done THEN t.ret ELSE GbAfter(t.c))
+    ELSE LET c2 == Adv(c, 1) IN
+      IF SrcEmpty(c2) THEN (IF c2.last THEN Ret(V0, "M", 2, 0, c2) ELSE Ret(GbV(na, second, 0, 0), "I", 0, 0, c2))
+      ELSE LET third == Peek(c2) IN
+        IF ~ThirdOK(third) THEN Ret(GbV(0, 0, 0, second), "M", 1, 1, c2)
+        ELSE LET c3 == Adv(c2, 1) IN
+          IF SrcEmpty(c3) THEN (IF c3.last THEN Ret(V0, "M", 3, 0, c3) ELSE Ret(GbV(na, second, third, 0), "I", 0, 0, c3))
+          ELSE LET t == GbFourth(na, second, third, c3) IN IF t.done THEN t.ret ELSE GbAfter(t.c)
+
+GbAfter(c) ==
+  IF SrcEmpty(c) THEN Ret(V0, "I", 0, 0, c)
+  ELSE IF ~SpaceAstral(c) THEN Ret(V0, "O", 0, 0, c)
+  ELSE LET b == Peek(c)
+           c1 == Adv(c, 1)
+       IN  IF b > 127 THEN GbMiddle(c1, b) ELSE GbOuter(Wr(c1, <<b>>))
+
+\* the "while !pending.is_none()" loop that resumes a sequence begun in an earlier call
+RECURSIVE GbResume(_, _)
+GbResume(v, c) ==
+  IF v.st.a = 0 THEN GbOuter(c)
+  ELSE IF SrcEmpty(c) THEN
+    (IF c.last THEN Ret(V0, "M", IF v.st.c # 0 THEN 3 ELSE IF v.st.b # 0 THEN 2 ELSE 1, 0, c) ELSE Ret(v, "I", 0, 0, c))
+  ELSE IF ~SpaceAstral(c) THEN Ret(v, "O", 0, 0, c)
+  ELSE LET byte == Peek(c) IN
+    IF v.st.c # 0 THEN
+      (LET t == GbFourth(v.st.a, v.st.b, v.st.c, c) IN
+       IF t.done THEN t.ret ELSE GbOuter(t.c))
+    ELSE IF v.st.b # 0 THEN
+      (IF ~ThirdOK(byte) THEN Ret(GbV(0, 0, 0, v.st.b), "M", 1, 1, c)
+       ELSE GbResume(GbV(v.st.a, v.st.b, byte, 0), Adv(c, 1)))
+    ELSE
+      (IF ~IsDigitByte(byte) THEN (LET t == GbSecond(v.st.a, c) IN IF t.done THEN t.ret ELSE GbOuter(t.c))
+       ELSE GbResume(GbV(v.st.a, byte, 0, 0), Adv(c, 1)))
+
+GbRaw(v, c) ==
+  IF v.lead # 0 THEN
+    \* pending_ascii prologue: "return (DecoderResult::OutputFull, 0, 0)"
+    IF ~SpaceBmp(c) THEN Ret(v, "O", 0, 0, c)
+    ELSE GbResume([v EXCEPT !.lead = 0], Wr(c, <<v.lead>>))
+  ELSE GbResume(v, c)
+
+(***************************************************************************)
 (* VariantDecoder dispatch                                                 *)
 (***************************************************************************)
-ExactVariant(enc) == Family(enc) \in {"big5", "euckr", "sjis", "sb", "userdef", "repl", "iso2022jp", "utf8", "utf16be", "utf16le"}
+ExactVariant(enc) == Family(enc) \in {"big5", "euckr", "sjis", "sb", "userdef", "repl", "iso2022jp", "utf8", "utf16be", "utf16le", "gb"}
 
 Raw(enc, v, src, cap, last, sink) ==
   LET c == NewCtx(src, cap, last, sink)
@@ -400,7 +494,7 @@ Raw(enc, v, src, cap, last, sink) ==
         [] f = "utf8" -> Utf8Loop(v, c)
         [] f = "utf16be" -> Utf16Raw(TRUE, v, c)
         [] f = "utf16le" -> Utf16Raw(FALSE, v, c)
-        [] f = "gb" -> DFGeneric(enc, "astral", v, c)
+        [] f = "gb" -> GbRaw(v, c)
         [] OTHER -> DFGeneric(enc, "bmp", v, c)
 
 (***************************************************************************)
